@@ -203,6 +203,40 @@ pub fn h_shim_map_parser<S: Src, const N: usize>(s: &mut S) {
     }
 }
 
+// ---------------------------------------------------------------- opt / cond / map
+pub fn h_shim_opt_cond<S: Src>(s: &mut S) {
+    use tp::nom::combinator::{cond, map, opt};
+    let buf: [u8; 3] = s.bytes();
+    let n = s.usize();
+    vassume!(s, n <= 3);
+    let b = s.bool();
+    let i = &buf[..n];
+    let r0 = elem(i);
+    let r = opt(elem)(i);
+    match (&r0, &r) {
+        (Ok((rem0, v0)), Ok((rem, Some(v)))) => vassert!(s, v == v0 && rem.as_ptr() == rem0.as_ptr() && rem.len() == rem0.len(), "shim opt: Ok is wrapped in Some, remainder unchanged"),
+        (Err(Err::Error(_)), Ok((rem, None))) => vassert!(s, is_suffix(i, rem, 0), "shim opt: Error -> Ok((input, None)), nothing consumed"),
+        (Err(Err::Incomplete(_)), Err(Err::Incomplete(_))) | (Err(Err::Failure(_)), Err(Err::Failure(_))) => {}
+        _ => vassert!(s, false, "shim opt: Incomplete and Failure are propagated, everything else as above"),
+    }
+    let c = cond(b, elem)(i);
+    if b {
+        match (&r0, &c) {
+            (Ok((rem0, v0)), Ok((rem, Some(v)))) => vassert!(s, v == v0 && rem.len() == rem0.len(), "shim cond(true): Ok wrapped in Some"),
+            (Err(e0), Err(e)) => vassert!(s, e0 == e, "shim cond(true): errors propagated unchanged"),
+            _ => vassert!(s, false, "shim cond(true): same class as the inner parser"),
+        }
+    } else {
+        vassert!(s, matches!(&c, Ok((rem, None)) if is_suffix(i, rem, 0)), "shim cond(false): Ok((input, None))");
+    }
+    let m = map(elem, |x: u8| x as u16 + 1)(i);
+    match (&r0, &m) {
+        (Ok((rem0, v0)), Ok((rem, v))) => vassert!(s, *v == *v0 as u16 + 1 && rem.len() == rem0.len(), "shim map: function applied to the output, remainder unchanged"),
+        (Err(e0), Err(e)) => vassert!(s, e0 == e, "shim map: errors propagated unchanged"),
+        _ => vassert!(s, false, "shim map: same class as the inner parser"),
+    }
+}
+harness!(shim_opt_cond, unwind = 6, h_shim_opt_cond);
 harness!(shim_map_parser, unwind = 6, h_shim_map_parser::<_, 5>);
 harness!(shim_take, unwind = 3, h_shim_take::<_, 6>);
 harness!(shim_be, unwind = 6, h_shim_be);
